@@ -1,7 +1,8 @@
 (** C17: sx interface (decoders, model runs, monitors, judge).
 
     An input is [L (A kind :: ...)]:
-      kind 0  history of operations on a read-caching / read-fallback composite
+      kind 0  history of operations (Get 0, Put 1, FindMissing 2, GetFromComposite 3)
+              on a read-caching / read-fallback composite
       kind 1  history of an existence cache (decorator + direct calls) on a virtual clock
       kind 2  schedule of gated concurrent callers of a replicator decorator
       kind 3  history of operations on the LRU set                                   *)
@@ -28,14 +29,15 @@ Definition dec_op (s : sx) : op * list Z :=
   (match sx_Z (sx_nth s 0) with
    | 1 => OPut (sx_nat (sx_nth s 1))
    | 2 => OFm (sx_nats (sx_nth s 1))
+   | 3 => OGfc (sx_nat (sx_nth s 1))
    | _ => OGet (sx_nat (sx_nth s 1))
    end, sx_Zs (sx_nth s 2)).
 
 Definition enc_bk (b : bk) : sx := A (match b with BA => 0 | BB => 1 end).
-Definition enc_cop (o : cop) : sx := A (match o with CGet => 0 | CPut => 1 | CFm => 2 end).
+Definition enc_cop (o : cop) : sx := A (match o with CGet => 0 | CPut => 1 | CFm => 2 | CGfc => 3 end).
 Definition enc_call (c : call) : sx := L [enc_bk (c_bk c); enc_cop (c_op c); of_nats (c_args c); A (c_fault c)].
 Definition enc_obs (o : step_obs) : sx :=
-  L [A (fst (o_res o)); of_nats (snd (o_res o)); L (map enc_call (o_calls o)); of_nats (o_a o); of_nats (o_b o)].
+  L [A (fst (o_res o)); of_nats (snd (o_res o)); L (map enc_call (o_calls o)); of_nats (o_a o); of_nats (o_b o); A (o_pfx o)].
 
 Definition seq_cfg (inp : sx) :=
   (dec_comp (sx_nth inp 1), dec_repl 8 (sx_nth inp 2),
@@ -53,6 +55,10 @@ Definition list_eqb (x y : list nat) : bool := sx_eqb (of_nats x) (of_nats y).
     contents afterwards); the model is not consulted. *)
 Definition obs_faulted (o : sx) : bool :=
   existsb (fun c => negb (Z.eqb (sx_Z (sx_nth c 3)) 0)) (sx_list (sx_nth o 2)).
+
+(** Some backend call of the step failed with a code other than NOT_FOUND. *)
+Definition obs_hard (o : sx) : bool :=
+  existsb (fun c => let f := sx_Z (sx_nth c 3) in negb (Z.eqb f 0) && negb (Z.eqb f 5)) (sx_list (sx_nth o 2)).
 
 (** Clause 2 is about replicators that either copy or merely forward to the
     source; a decorator that re-reads the sink stacked on a replicator that
@@ -74,7 +80,20 @@ Definition mon_seq_step (k : comp) (r : repl) (o : op) (a b : list nat) (ob : sx
       (* 2: no backend failure, yet a held object is not returned / an absent one is not NOT_FOUND *)
       (if sensible r && negb faulted && (if held then negb (Z.eqb code 0) else negb (Z.eqb code 5)) then [2] else []) ++
       (* 5: successful read with a copying replicator, object not in the fast/primary backend afterwards *)
-      (if Z.eqb code 0 && copying r && negb (memb d a') then [5] else [])
+      (if Z.eqb code 0 && copying r && negb (memb d a') then [5] else []) ++
+      (* 15: a backend call failed with a code other than NOT_FOUND, yet the read succeeded *)
+      (if Z.eqb code 0 && obs_hard ob then [15] else [])
+  | OGfc p =>
+      (* composite read of the child of parent p (GetFromComposite) *)
+      let held := memb p a || memb p b in
+      (* 8: the child is returned although neither backend held the parent *)
+      (if Z.eqb code 0 && negb held then [8] else []) ++
+      (* 9: no backend failure, yet the child of a held parent is not returned / an absent parent is not NOT_FOUND *)
+      (if sensible r && negb faulted && (if held then negb (Z.eqb code 0) else negb (Z.eqb code 5)) then [9] else []) ++
+      (* 10: successful composite read with a copying replicator, parent not in the fast/primary backend afterwards *)
+      (if Z.eqb code 0 && copying r && negb (memb p a') then [10] else []) ++
+      (* 15: as for Get *)
+      (if Z.eqb code 0 && obs_hard ob then [15] else [])
   | OPut d =>
       let tgt := match put_target k with BA => 0 | BB => 1 end in
       (* 3: an upload caused a call other than Put on the slow/primary backend, or changed the other backend *)
@@ -117,6 +136,7 @@ Definition dec_eop (s : sx) : eop :=
   | 1 => ERemoveExisting (sx_nats (sx_nth s 1)) (sx_N (sx_nth s 2))
   | 2 => EAdd (sx_nats (sx_nth s 1)) (sx_N (sx_nth s 2))
   | 3 => EBackendPut (sx_nat (sx_nth s 1))
+  | 5 => EGfc (sx_nat (sx_nth s 1)) (sx_Z (sx_nth s 2))
   | _ => EBackendDel (sx_nat (sx_nth s 1))
   end.
 
@@ -160,6 +180,14 @@ Definition mon_ec_step (size : nat) (dur : N) (o : eop) (recs : list (nat * N)) 
       ((if forallb (justified dur recs t1) cached then [] else [11]) ++
        (if Nat.ltb size (length cached) then [13] else []), recs)
   | EAdd ds _ => ([], map (fun d => (d, t1)) (dedup_sort ds) ++ recs)
+  | EGfc p fault =>
+      let asked := sx_nats (sx_nth (sx_nth ob 2) 0) in
+      (* 16: a composite read through the decorator is not the backend's answer for that parent
+             (no backend failure: the child iff the backend holds the parent, else NOT_FOUND;
+              a backend failure: an error) *)
+      ((if list_eqb asked [p] &&
+           (if Z.eqb fault 0 then Z.eqb code (if memn p bk then 0 else 5) else negb (Z.eqb code 0))
+        then [] else [16]), recs)
   | _ => ([], recs)
   end.
 
